@@ -153,14 +153,15 @@ Lemma cleanup_restores_reflect : forall x, cleanup_restores_b x = true <-> clean
 Proof.
   intros [[pre o] ob]. unfold cleanup_restores_b, cleanup_restores.
   rewrite orb_true_iff, negb_true_iff, forallb_seq. split.
-  - intros [Hn | H] Hc n Hlt Ho Hm Hg; [congruence|].
-    specialize (H n Hlt). rewrite Ho, Hm, Hg in H. simpl in H.
+  - intros [Hn | H] Hc n Hlt Ho Hm Hg Hp; [congruence|].
+    specialize (H n Hlt). rewrite Ho, Hm, Hg, Hp in H. simpl in H.
     apply andb_true_iff in H. destruct H as [H1 H2]. apply negb_true_iff in H1. apply negb_true_iff in H2. auto.
   - intros H. destruct (clean_pass o (o_ret ob)); [right | left; reflexivity].
     intros n Hlt. destruct (sn_owner pre n) eqn:Ho; [reflexivity|].
     destruct (sn_mview pre n) eqn:Hm; [reflexivity|].
-    destruct (n_gone (sn_fact pre n)) eqn:Hg; [reflexivity|]. simpl.
-    destruct (H eq_refl n Hlt Ho Hm Hg) as [H1 H2]. rewrite H1, H2. reflexivity.
+    destruct (n_gone (sn_fact pre n)) eqn:Hg; [reflexivity|].
+    destruct (obj_present (sn_fact pre n)) eqn:Hp; [|reflexivity]. simpl.
+    destruct (H eq_refl n Hlt Ho Hm Hg Hp) as [H1 H2]. rewrite H1, H2. reflexivity.
 Qed.
 
 Lemma is_started_eq : forall r, is_started r = true <-> r = Started.
@@ -179,4 +180,21 @@ Proof.
     + intros n Hn. apply opt_nat_eqb_eq. apply H2. assumption.
     + destruct (is_started (o_ret ob)) eqn:E; [right | left; reflexivity].
       apply is_started_eq in E. apply forallb_forall. intros n Hin. rewrite (H3 E n Hin). reflexivity.
+Qed.
+
+Lemma is_dropped_eq : forall r, is_dropped r = true <-> r = RDropped.
+Proof. destruct r; simpl; split; congruence. Qed.
+
+Lemma cmd_reachable_reflect : forall x, cmd_reachable_b x = true <-> cmd_reachable x.
+Proof.
+  intros [[pre o] ob]. unfold cmd_reachable_b, cmd_reachable.
+  rewrite orb_true_iff, negb_true_iff. split.
+  - intros [Hn | Hc] Hr n c m Hrn Hin Hm.
+    + apply is_dropped_eq in Hr. congruence.
+    + rewrite Hrn in Hc. rewrite forallb_forall in Hc. specialize (Hc c Hin).
+      rewrite forallb_forall in Hc. apply Hc. assumption.
+  - intros H. destruct (is_dropped (o_ret ob)) eqn:E; [right | left; reflexivity].
+    apply is_dropped_eq in E. destruct (recon_node o) as [n|]; [|reflexivity].
+    apply forallb_forall. intros c Hin. apply forallb_forall. intros m Hm.
+    apply (H E n c m eq_refl Hin Hm).
 Qed.
